@@ -17,6 +17,7 @@ sed -i "s#=> /repo#=> $S.repo#" "$S.verif/harness/go.mod"
 mkdir -p "$S.verif/bin"
 ( cd "$S.verif/harness" && go build -tags verif -o "$S.verif/bin/check" ./cmd/check ) > "$S.verif/build.log" 2>&1 || { echo "BUILD-FAILURE"; head "$S.verif/build.log"; exit 2; }
 export VERIF_ROOT="$S.verif" VERIF_REPO="$S.repo"
+if [ -n "${SEED_CMD:-}" ]; then ( cd "$S.verif" && "$S.verif/bin/check" $SEED_CMD ); exit $?; fi
 for c in "$@"; do
   s=$(date +%s)
   if [ -x /verif/tools/check_extra.sh ]; then :; fi
